@@ -230,6 +230,10 @@ def run(oc, tier, seed, model_available, escalate):
                 # (processed + skipped = entries the run looked at: damage inside ONE entry can make at most that one entry disappear)
                 bad = "the run looked at %d entries, the run on the pristine ecc file at %d: entries other than the victim's were not visited (victim %s, %s)" % (
                     st[0] + st[-1], st0[0] + st0[-1], order[vi], kd)
+            if not bad and st is not None and st0 is not None and st[2] < st0[2] - 1:
+                # (counters: damage inside one entry can take at most that entry's own file out of the "repaired completely" count)
+                bad = "%d files reported completely repaired, %d with the pristine ecc file: files other than the victim's are not reported as with the pristine ecc file (victim %s, %s)" % (
+                    st[2], st0[2], order[vi], kd)
             if not bad and eu.read_tree(droot) != dmg:
                 bad = "an input file was modified"
         if bad:
